@@ -3,5 +3,7 @@ import Libvna.Gen.Conv2All
 import Libvna.Props.C04
 import Libvna.Props.C05
 import Libvna.Props.C10
+import Libvna.Props.C13
+import Libvna.Props.C14
 import Libvna.Props.C15
 import Libvna.Driver.Main
